@@ -181,7 +181,7 @@ def drive(gen, answer, cap):
                     gen.close()
                     break
                 resp, ev = answer(item)
-                events.append(ev)
+                events.extend(ev if isinstance(ev, list) else [ev])
                 send = to_response(item, resp)
             else:
                 send = None
@@ -208,7 +208,7 @@ def drive_iter(gen, answer, cap):
                     gen.close()
                     break
                 resp, ev = answer(item)
-                events.append(ev)
+                events.extend(ev if isinstance(ev, list) else [ev])
                 send = to_response(item, resp)
                 yield
             else:
